@@ -264,11 +264,17 @@ def rule_deriv_key(F, ev, R, config, rule="R-DERIV-KEY"):
                         space = logic.canon_index(x)
                     else:
                         msg = "the key index is taken after another adapter (`%s`): positions no longer refer to the model parameter list" % short(inner)[:120]
-        wcalls = [(wbi, wt) for wbi, wt in b.calls() if "fn" in wt and (wt["fn"].get("key") or "").endswith("create_wrapped_basis_function")]
+        # the model parameter list = what this method hands to the wrapper constructor as its first argument
         model_list = None
-        if wcalls:
-            a0 = ev.operand(env, wcalls[0][1]["args"][0], (wcalls[0][0], None))
-            model_list = strip_mut(a0)[0]
+        try:
+            wkey = wrapper_fn(F).key
+            evw = Eval(F, opaque=set(ev.opaque) | {wkey})
+            wcid = strip_generics(F.bodies[wkey].j["path"])
+            wcalls = [e for e in iteration_effects(evw, Env(b)) if e.kind == "call" and e.cid == wcid]
+            if wcalls:
+                model_list = strip_mut(wcalls[0].raw[0])[0]
+        except AnchorMissing:
+            pass
         if space is not None:
             ok = model_list is not None and space == logic.canon_index(model_list)
             if not ok:
